@@ -381,11 +381,17 @@ def site_cert(case, rng):
                             e.sigalgs = [sch]
         r.send_hook(peer, target, resign)
         r.recv_hook(peer, mutate)
+        kind = 'cert'
         if verifier == 'client':
             ckw = dict(settings=vst)
+            if case.get('srp'):
+                kind = 'srp'
+                ckw.update(username=bytearray(b'test'), password=bytearray(b'password'))
             if case.get('checker_fp') is not None:
                 ckw['checker'] = Checker(x509Fingerprint=loop.creds(case['checker_fp'][1:])[0].getFingerprint())
             skw = dict(certChain=chain, privateKey=key, settings=pst)
+            if case.get('srp'):
+                skw['verifierDB'] = loop.make_verifier_db()
         else:
             sname = case.get('server_key', 'rsa')
             sc, sk = loop.creds(sname)
@@ -393,7 +399,7 @@ def site_cert(case, rng):
             skw = dict(certChain=sc, privateKey=sk, reqCert=True, settings=vst)
             if case.get('checker_fp') is not None:
                 skw['checker'] = Checker(x509Fingerprint=loop.creds(case['checker_fp'][1:])[0].getFingerprint())
-        r.out = p.handshake(client_kw=ckw, server_kw=skw)
+        r.out = p.handshake(client_kw=ckw, server_kw=skw, client_kind=kind)
         r.vst = vst
         return r
     stale = first_honest(case, runner)
@@ -443,6 +449,8 @@ def site_cert(case, rng):
     m['rec_ok'] = keys_ok
     m['a_fin'].append((which, [11], how != 'bad-finished'))
     m['by_construction'] += ['fin', 'rec']
+    if case.get('srp'):
+        m['srp_user'] = list(b'test')
     if case.get('checker_fp') is not None:
         m['want'] = [CRED_ID[case['checker_fp'][1:]]]
     expect = honest and (case.get('checker_fp') is None or case.get('checker_match'))
@@ -467,7 +475,367 @@ def finish(case, p, verifier, outcome, peer_outcome, m, expect_accept, claimed):
             'expect_accept': bool(expect_accept), 'claimed': claimed, 'model': m}
 
 
-SITES = {'cert': site_cert}
+# ---- SRP ---------------------------------------------------------------------------------
+def site_srp(case, rng):
+    """(7) SRP password proof; server under test unless verifier='client'"""
+    ver, how, verifier = tuple(case['ver']), case['how'], case.get('verifier', 'server')
+    r = Run(case, rng)
+    p = r.p
+    peer = p.client if verifier == 'server' else p.server
+    r.send_hook(peer, 'none')
+    r.recv_hook(peer)
+    user, pw = b'test', b'password'
+    db = loop.make_verifier_db()
+    if how == 'wrong-password':
+        if verifier == 'server':
+            pw = b'passw0rd'
+        else:
+            db = loop.make_verifier_db(password=b'other-password')     # a server that does not know the verifier
+    if how == 'unknown-user':
+        user = b'nobody'
+    co, so = p.handshake(client_kw=dict(username=bytearray(user), password=bytearray(pw), settings=vset(ver)),
+                         server_kw=dict(verifierDB=db, settings=vset(ver)), client_kind='srp')
+    m = base_model(2 if verifier == 'server' else 1, ver)
+    m['kx'] = 2
+    m['cr'], m['sr'] = r.cap['cr'] or b'', r.cap['sr'] or b''
+    m['srp_user'] = list(user)
+    m['srp_known'] = how != 'unknown-user'
+    m['rec_ok'] = how != 'wrong-password'
+    m['a_fin'].append((0 if verifier == 'server' else 1, [11], how != 'bad-finished'))
+    m['by_construction'] += ['fin', 'rec', 'srp_known']
+    vout, pout = (so, co) if verifier == 'server' else (co, so)
+    o = finish(case, p, verifier, vout, pout, m, how == 'honest', None)
+    o['key'] = 'srp'
+    if how == 'honest' and o['ident']['srp'] != 'test':
+        o['expect_accept_but_no_identity'] = True
+    return o
+
+
+def site_srp_unproved(case, rng):
+    """a certificate-only server and a client that merely CLAIMS an SRP user name"""
+    ver = tuple(case['ver'])
+    r = Run(case, rng)
+    p = r.p
+
+    def add_ext(m):
+        if isinstance(m, ClientHello):
+            m.addExtension(SRPExtension().create(bytearray(b'admin')))
+        return m
+    r.send_hook(p.client, 'none', extra=add_ext)
+    r.recv_hook(p.client)
+    sc, sk = loop.creds('rsa')
+    co, so = p.handshake(client_kw=dict(settings=vset(ver)), server_kw=dict(certChain=sc, privateKey=sk, settings=vset(ver)))
+    m = base_model(2, ver)
+    m['kx'] = kx_of(r.cap['suite']) if r.cap['suite'] is not None else 1
+    m['cr'], m['sr'] = r.cap['cr'] or b'', r.cap['sr'] or b''
+    m['srp_user'] = list(b'admin')
+    m['own_chain'] = [CRED_ID['rsa']]
+    m['a_fin'].append((0, [11], True))
+    o = finish(case, p, 'server', so, co, m, True, None)
+    o['key'] = 'rsa'
+    o['srp_unproved'] = o['code'] == 0 and o['ident']['srp'] is not None
+    return o
+
+
+# ---- PSK ---------------------------------------------------------------------------------
+def site_psk(case, rng):
+    """(8) TLS 1.3 external PSK: binder + Finished"""
+    ver, how, verifier = (3, 4), case['how'], case.get('verifier', 'server')
+    r = Run(case, rng)
+    p = r.p
+    peer = p.client if verifier == 'server' else p.server
+    secret = bytearray(b'\x07' * 32)
+    bad = bytearray(b'\x08' * 32)
+
+    def flip_binder(m):
+        if isinstance(m, ClientHello) and how == 'flip-binder':
+            ext = m.extensions[-1]
+            b = bytearray(ext.binders[0])
+            b[rng.randrange(len(b))] ^= 1 << rng.randrange(8)
+            ext.binders[0] = b
+        return m
+    r.send_hook(peer, 'none', extra=flip_binder if verifier == 'server' else None)
+    r.recv_hook(peer)
+    cpsk = bad if (how == 'wrong-psk' and verifier == 'server') else secret
+    spsk = bad if (how == 'wrong-psk' and verifier == 'client') else secret
+    cst = vset(ver, pskConfigs=[(b'ident', cpsk, 'sha256')])
+    sst = vset(ver, pskConfigs=[(b'ident', spsk, 'sha256')])
+    co, so = p.handshake(client_kw=dict(settings=cst), server_kw=dict(settings=sst))
+    m = base_model(4 if verifier == 'server' else 3, ver)
+    m['psk'] = 1
+    m['prf'] = 'sha256'
+    binder_ok = how not in ('wrong-psk', 'flip-binder')
+    m['a_binder'].append((1, [9], binder_ok))
+    m['rec_ok'] = how != 'wrong-psk'
+    m['a_fin'].append((3 if verifier == 'server' else 2, [11], how != 'bad-finished'))
+    m['by_construction'] += ['fin', 'rec', 'binder']
+    vout, pout = (so, co) if verifier == 'server' else (co, so)
+    o = finish(case, p, verifier, vout, pout, m, how == 'honest', None)
+    o['key'] = 'psk'
+    return o
+
+
+def site_ticket(case, rng):
+    """(8) TLS 1.3 resumption: the client chain stored in the ticket is attributed to the
+    resuming client only after binder and Finished"""
+    ver, how = (3, 4), case['how']
+    tk = [bytearray(b'\x11' * 32)]
+    p0 = loop.Pair()
+    cc, ck = loop.creds(case['key'])
+    sc, sk = loop.creds('rsa')
+    co, so = p0.handshake(client_kw=dict(certChain=cc, privateKey=ck, settings=vset(ver)),
+                          server_kw=dict(certChain=sc, privateKey=sk, reqCert=True, settings=vset(ver, ticketKeys=tk)))
+    loop.drive([p0.client.readAsync(max=0, min=0)])
+    if co[0] != 'ok' or not p0.client.session.tickets:
+        return {'site': case['site'], 'harness_error': 'no ticket obtained: %r' % (co,), 'case': case}
+    r = Run(case, rng)
+    p = r.p
+
+    def flip_binder(m):
+        if isinstance(m, ClientHello) and how == 'flip-binder':
+            ext = m.extensions[-1]
+            b = bytearray(ext.binders[0])
+            b[rng.randrange(len(b))] ^= 1 << rng.randrange(8)
+            ext.binders[0] = b
+        return m
+    r.send_hook(p.client, 'none', extra=flip_binder)
+    r.recv_hook(p.client)
+    co, so = p.handshake(client_kw=dict(session=p0.client.session, settings=vset(ver)),
+                         server_kw=dict(certChain=sc, privateKey=sk, settings=vset(ver, ticketKeys=tk)))
+    m = base_model(4, ver)
+    m['psk'] = 2
+    m['prf'] = 'sha384'
+    m['ticket_chain'] = [CRED_ID[case['key']]]
+    m['own_chain'] = [CRED_ID['rsa']]
+    m['a_binder'].append((2, [9], how != 'flip-binder'))
+    m['a_fin'].append((3, [11], how != 'bad-finished'))
+    m['by_construction'] += ['fin', 'binder']
+    return finish(case, p, 'server', so, co, m, how == 'honest', CRED_ID[case['key']])
+
+
+# ---- post-handshake authentication ---------------------------------------------------------
+def site_pha(case, rng):
+    """(5) server under test: request_post_handshake_auth, then the client's Certificate /
+    CertificateVerify / Finished are processed inside readAsync (_handle_srv_pha)"""
+    ver, how, name = (3, 4), case['how'], case['key']
+    r = Run(case, rng)
+    p = r.p
+    chain = loop.creds(name)[0]
+    key = peer_key(case, name)
+    st = vset(ver)
+    sc, sk = loop.creds('rsa')
+    co, so = p.handshake(client_kw=dict(certChain=chain, privateKey=key, settings=st),
+                         server_kw=dict(certChain=sc, privateKey=sk, settings=vset(ver)))
+    if co[0] != 'ok' or so[0] != 'ok':
+        return {'site': case['site'], 'harness_error': 'initial handshake failed: %r %r' % (co, so), 'case': case}
+    before = ident_of(p.server)['client']
+    pha = {'cr': None, 'cert': None}
+
+    def grab_cert(m):
+        if isinstance(m, Certificate) or type(m).__name__ == 'CompressedCertificate':
+            pha['cert'] = bytes(m.write())
+        return m
+    r.stale = None
+    if how == 'stale':                      # a CertificateVerify signature taken from an earlier, separate PHA exchange
+        c2 = dict(case)
+        c2['how'] = 'honest'
+        c2['seed'] = case['seed'] + 1
+        o2 = site_pha(c2, rng)
+        r.stale = bytes.fromhex(o2['wire_sig']) if o2.get('wire_sig') else b'\x00' * 64
+    r.send_hook(p.client, 'cv', extra=grab_cert)
+
+    def grab_cr(m):
+        if isinstance(m, CertificateRequest):
+            pha['cr'] = bytes(m.write())
+    r.recv_hook(p.client, grab_cr)
+    req = loop.drive([p.server.request_post_handshake_auth(vset(ver))])
+    cl = loop.drive([p.client.readAsync(max=0, min=0)])
+    sv = loop.drive([p.server.readAsync(max=0, min=0)])[0]
+    m = base_model(5, ver)
+    suite = p.server.session.cipherSuite if p.server.session else None
+    prf = 'sha384' if suite in CipherSuite.sha384PrfSuites else 'sha256'
+    m['prf'] = prf
+    m['cert'] = certmsg(name)
+    m['offered'] = r.cap.get('offered') or []
+    m['valid'] = valid_list(HandshakeSettings(), chain, ver)
+    m['own_chain'] = [CRED_ID['rsa']]
+    wire_sig = None
+    if r.cap['cv'] is not None and pha['cr'] is not None and pha['cert'] is not None:
+        scheme, sig, _ = r.cap['cv']
+        wire_sig = sig
+        transcript = bytes(p.client._first_handshake_hashes._handshake_buffer) + pha['cr'] + pha['cert']
+        sig_answer(m, (scheme, sig, transcript), name, ver, b'client', prf, how == 'honest')
+    m['a_fin'].append((4, [11], how != 'bad-finished'))
+    m['by_construction'] += ['fin', 'ctx']
+    o = finish(case, p, 'server', sv, cl[0], m, how == 'honest', CRED_ID[name])
+    o['wire_sig'] = wire_sig.hex() if wire_sig else None
+    o['pha_before'] = before
+    if o['code'] != 0 or True:
+        # for PHA "the call" is readAsync; identity must be unchanged (None) unless the proof was honest
+        pass
+    return o
+
+
+# ---- delegated credentials -----------------------------------------------------------------
+DC_KEYS = {'ed25519': ('serverDelCredEd25519Key.pem', 'serverDelCredEd25519Pub.pem', (8, 7), 101),
+           'rsapss': ('serverDelCredRSAPSSKey.pem', 'serverDelCredRSAPSSPub.pem', (8, 9), 102),
+           'p256': ('serverDelCredSECP256r1Key.pem', 'serverDelCredSECP256r1Pub.pem', (4, 3), 103),
+           'p384': ('serverDelCredSECP384r1Key.pem', 'serverDelCredSECP384r1Pub.pem', (5, 3), 104)}
+CERT_SCHEME = {'rsapss': (8, 9), 'ecdsa': (4, 3), 'ed25519': (8, 7), 'bp256': (8, 26)}
+
+
+def _load_dc(which):
+    import os
+    from tlslite.utils.pem import dePem
+    from tlslite.api import parsePEMKey
+    kf, pf, alg, kid = DC_KEYS[which]
+    with open(os.path.join(loop.TESTS, kf)) as f:
+        key = parsePEMKey(f.read(), private=True, implementations=['python'])
+    with open(os.path.join(loop.TESTS, pf)) as f:
+        pub = dePem(f.read(), 'PUBLIC KEY')
+    return key, pub, alg, kid
+
+
+def scheme_sign(key, scheme, data):
+    name = SignatureScheme.toRepr(scheme)
+    if scheme in ((8, 7), (8, 8)):
+        return key.hashAndSign(data, None, 'intrinsic', None)
+    if scheme[1] == 3 or 'brainpool' in name:
+        return key.hashAndSign(data, None, SignatureScheme.getHash(name), None)
+    hn = SignatureScheme.getHash(name)
+    return key.hashAndSign(data, SignatureScheme.getPadding(name), hn, getattr(hashlib, hn)().digest_size)
+
+
+def scheme_verify(pub, scheme, data, sig):
+    name = SignatureScheme.toRepr(scheme)
+    try:
+        if scheme in ((8, 7), (8, 8)):
+            return bool(pub.hashAndVerify(bytearray(sig), bytearray(data), None, 'intrinsic', None))
+        if scheme[1] == 3 or 'brainpool' in name:
+            return bool(pub.hashAndVerify(bytearray(sig), bytearray(data), None, SignatureScheme.getHash(name), None))
+        hn = SignatureScheme.getHash(name)
+        return bool(pub.hashAndVerify(bytearray(sig), bytearray(data), SignatureScheme.getPadding(name), hn,
+                                      getattr(hashlib, hn)().digest_size))
+    except Exception:   # noqa
+        return False
+
+
+def site_dc(case, rng):
+    """(6) delegated credential: client under test; both the delegation signature (end-entity
+    key) and the CertificateVerify (credential key) must verify, both algorithms offered"""
+    ver, how, name, which = (3, 4), case['how'], case['key'], case['dc']
+    r = Run(case, rng)
+    p = r.p
+    chain, ckey = loop.creds(name)
+    dkey, dpub, dalg, dkid = _load_dc(which)
+    calg = CERT_SCHEME[name]
+    valid_time = 7 * 24 * 3600
+    cred_bytes = Credential.marshal(valid_time, dalg, dpub)
+    cred = Credential(valid_time=valid_time, dc_cert_verify_algorithm=dalg, subject_public_key_info=dpub, bytes=cred_bytes)
+    cert_bytes = chain.x509List[0].bytes
+    tbs = b' ' * 64 + b'TLS, server delegated credentials' + b'\x00' + bytes(cert_bytes) + bytes(cred_bytes) + bytes(calg)
+    signer = P.other_key(name) if how == 'dc-other-key' else ckey
+    dsig = bytearray(scheme_sign(signer, calg, bytearray(tbs)))
+    if how == 'dc-flip':
+        dsig[rng.randrange(len(dsig))] ^= 1 << rng.randrange(8)
+    if how == 'dc-empty':
+        dsig = bytearray()
+    del_cred = DelegatedCredential(cred=cred, algorithm=calg, signature=dsig)
+    cv_key = dkey
+    if how == 'cv-other-key':               # the server does not hold the credential's private key
+        cv_key = _load_dc('p384' if which == 'p256' else 'p256' if which == 'p384' else which)[0] if which in ('p256', 'p384') else P.KeyProxy(dkey, 'other-msg')
+    if how == 'cv-other-msg':
+        cv_key = P.KeyProxy(dkey, 'other-msg')
+    c2 = dict(case)
+    c2['how'] = {'cv-flip': 'flip', 'cv-empty': 'empty'}.get(how, 'none')
+    r.case = c2
+    r.send_hook(p.server, 'cv')
+    forced = None
+    if how == 'dc-alg-forced':         # the server believes the client offered the credential's algorithm
+        def forced(mm):
+            if isinstance(mm, ClientHello):
+                e = mm.getExtension(ExtensionType.delegated_credential)
+                if e is not None:
+                    e.sigalgs = [tuple(dalg)] + [tuple(x) for x in e.sigalgs]
+    r.recv_hook(p.server, forced)
+    dc_offer = [(8, 9), (8, 7), (4, 3), (5, 3)]
+    vs = {}
+    if how in ('dc-alg-not-offered', 'dc-alg-forced'):
+        dc_offer = [x for x in dc_offer if x != dalg] or [(8, 9)]
+    cst = vset(ver, dc_sig_algs=dc_offer, **vs)
+    co, so = p.handshake(client_kw=dict(settings=cst),
+                         server_kw=dict(certChain=chain, privateKey=None, dc_key=cv_key, del_cred=del_cred, settings=vset(ver)))
+    m = base_model(3, ver)
+    suite = r.cap['suite']
+    prf = 'sha384' if suite in CipherSuite.sha384PrfSuites else 'sha256'
+    m['prf'] = prf
+    used_dc = r.cap['cv'] is not None and tuple(r.cap['cv'][0]) == tuple(dalg) and how != 'dc-alg-not-offered'
+    d = {'cred': bytes(cred_bytes), 'key': dkid, 'curve_hash': {(4, 3): 'sha256', (5, 3): 'sha384'}.get(dalg), 'cv_alg': dalg,
+         'alg': calg, 'sig': [7] if dsig else []}
+    cm = certmsg(name, dcs=[d] if how != 'dc-alg-not-offered' else [])
+    cm['cert'] = bytes(cert_bytes)
+    m['cert'] = cm
+    m['offered'] = r.cap.get('offered') or []
+    m['dc_offered'] = r.cap.get('dc_offered') or []
+    pub = chain.getEndEntityPublicKey()
+    m['a_sig'].append((CRED_ID[name], tbs, scheme_verify(pub, calg, tbs, dsig)))
+    if r.cap['cv'] is not None:
+        scheme, sig, transcript = r.cap['cv']
+        m['cv'] = (tuple(scheme), [7])
+        vb, de, he = spec_verify_bytes(ver, transcript, scheme, b'server', prf, None)
+        for (n, dg) in de:
+            m['a_digest'].append(([10], n, dg))
+        m['a_hash'] += he
+        if vb is not None:
+            from tlslite.x509 import Credential as _C
+            dpk = cred
+            dpk.parse_pub_key()
+            vpub = dpk.pub_key if tuple(scheme) == tuple(dalg) else pub
+            kt = {(8, 7): 'Ed25519', (8, 9): 'rsa-pss', (4, 3): 'ecdsa', (5, 3): 'ecdsa'}.get(tuple(scheme), keytype_of(chain))
+            ans = P.pubkey_verify(vpub, ver, tuple(scheme), bytearray(vb), sig, kt)
+            m['a_sig'].append((dkid if tuple(scheme) == tuple(dalg) else CRED_ID[name], vb, ans))
+    m['a_fin'].append((2, [11], True))
+    honest = how == 'honest'
+    o = finish(case, p, 'client', co, so, m, honest, CRED_ID[name])
+    o['how'] = how
+    o['dc_expected'] = honest
+    return o
+
+
+def extra_cases(quick=False):
+    out = []
+    for ver in [(3, 1), (3, 2), (3, 3)]:
+        out.append(dict(runner='srp_unproved', site='srp-unproved', ver=ver, how='honest'))
+        for how in ['honest', 'wrong-password', 'unknown-user', 'bad-finished']:
+            out.append(dict(runner='srp', site='srp', ver=ver, how=how, verifier='server'))
+        for how in ['honest', 'wrong-password', 'bad-finished']:
+            out.append(dict(runner='srp', site='srp-client', ver=ver, how=how, verifier='client'))
+        for key in ['rsa']:            # SRP_SHA_RSA suites only
+            for how in ['honest', 'other-key', 'flip', 'empty', 'stale', 'other-msg', 'bad-finished', 'replay-ske']:
+                out.append(dict(runner='cert', site='srp-cert', ver=ver, verifier='client', key=key, how=how, target='ske', srp=True))
+    for how in ['honest', 'wrong-psk', 'flip-binder', 'bad-finished']:
+        out.append(dict(runner='psk', site='psk', ver=(3, 4), how=how, verifier='server'))
+    for how in ['honest', 'wrong-psk', 'bad-finished']:
+        out.append(dict(runner='psk', site='psk-client', ver=(3, 4), how=how, verifier='client'))
+    for key in ['client-rsa', 'client-ecdsa']:
+        for how in ['honest', 'flip-binder', 'bad-finished']:
+            out.append(dict(runner='ticket', site='ticket', ver=(3, 4), key=key, how=how))
+    for key in ['client-rsa', 'client-ecdsa', 'client-ed25519']:
+        for how in ['honest', 'other-key', 'other-msg', 'omit', 'flip', 'empty', 'short', 'zero', 'stale', 'bad-finished']:
+            out.append(dict(runner='pha', site='pha', ver=(3, 4), key=key, how=how))
+    for ki, key in enumerate(['rsapss', 'ecdsa', 'ed25519', 'bp256']):
+        whiches = ['ed25519', 'rsapss', 'p256', 'p384']
+        if quick:                               # every credential type twice, every certificate type twice
+            whiches = [whiches[ki % 4], whiches[(ki + 1) % 4]]
+        for which in whiches:
+            for how in ['honest', 'dc-flip', 'dc-other-key', 'dc-empty', 'cv-flip', 'cv-other-msg', 'cv-empty', 'dc-alg-not-offered', 'dc-alg-forced']:
+                out.append(dict(runner='dc', site='dc', ver=(3, 4), key=key, dc=which, how=how))
+    return out
+
+
+SITES = {'cert': site_cert, 'srp': site_srp, 'srp_unproved': site_srp_unproved, 'psk': site_psk, 'pha': site_pha, 'ticket': site_ticket,
+         'dc': site_dc}
+
 
 
 def run_case(case):
